@@ -29,6 +29,11 @@ var verifC08Src = []string{
 	// earlier rows take their values straight from a variable and from another table's cell
 	"insert into t values (1, @v, (select c from u)), (4, 5, 10 / @z), (6, 7, 8)",
 	"replace into t (id, a, b) using (id) values (1, @v, (select c from u)), (2, 3, 100 / @z)",
+	// the SELECT form failing after the SELECT was evaluated: its rows are cells of the tables it read
+	"insert into t (id, nosuch) select c, c from u",
+	"insert into t (id, a) select c, c, c from u",
+	"replace into t (id, a) using (nosuch) select c, c from u",
+	"insert into t select id, a, b from t union all select c, @v, 100 / @z from u",
 }
 
 var verifC08Stmts []parser.Statement
